@@ -105,6 +105,12 @@ CLAIMS = {
   note="NOT decided: the recursive output functions (nodeToInterface, JSONify2, InnerText) as a whole, XML namespace scoping (finding F16 of the design round: the URI-to-prefix map is document-global), duplicate JSON keys. strconv.FormatFloat/FormatBool, encoding/json and encoding/xml token contents are assumed.",
   technique="contract-based deductive verification: per-token postconditions and caller-side assertions, SMT",
   design_ref="§6 C08"),
+ "C07": dict(
+  category="proof",
+  text="Partial. Proved for all tokens: readToken splits a segment token into elements, repetitions and components with the declared delimiters and EVERY split honours the release character (caller-side assertions on each ByteSplitWithEsc call; a split that no longer goes through it is reported), the raw segment refers to the token itself, its name is the first piece, a nameless segment is the fatal ErrInvalidEDI; rawSegToNode never writes a byte of the raw segment (every byte array existing at entry is unchanged: F15 fixed), unescapes each element value with the reader's release character, and reports a missing element without default as ErrInvalidEDI; the tokenizer's Read returns io.EOF or ErrInvalidEDI only.",
+  note="Assumed (specs/extern): go-corelib ByteSplitWithEsc/ByteUnescape/NewScannerByDelim3 semantics (pieces are sub-slices of the input; unescaped() is ByteUnescape's documented function; every token the scanner yields ends with the delimiter). NOT decided: that the concatenation of tokens is the input (finding F6 of the design round: an unterminated trailing segment is dropped by the scanner), rune positions in messages, ISA-driven delimiters. That each element text node holds exactly the unescaped data is checked at the ByteUnescape call, not at the CreateNode call.",
+  technique="contract-based deductive verification: caller-side assertions at every tokenizer call, byte-heap frame postcondition, SMT",
+  design_ref="§6 C07"),
 }
 
 NOT_BUILT = "check not built yet in this session (planned, see DESIGN.md §6); not claimed until its obligations discharge on the unchanged tree"
